@@ -65,6 +65,29 @@ def text_ref_kind(el, parents):
     return None
 
 
+# offending text with characters that are special to string formatting, quoting or encoding
+SPECIAL_NAMES = ['wheel%20front', 'no%such', 'a{0}b', "it's", 'caf\u00e9-\u65e5', 'x%(y)s']
+SPECIAL_TOKENS = ['50%', '1%s', '{1}', "1'", '\u00bd', '%d']
+
+
+def with_special_payloads(sites):
+    """every dangling / non-numeric site once more with a payload from the special alphabets"""
+    out = []
+    k = 0
+    for f in sites:
+        if f['kind'] == 'dangling':
+            g = dict(f)
+            g['payload'] = SPECIAL_NAMES[k % len(SPECIAL_NAMES)]
+            out.append(g)
+            k += 1
+        elif f['kind'] == 'nonnum' and (f.get('tok') in (0, None)):
+            g = dict(f)
+            g['payload'] = SPECIAL_TOKENS[k % len(SPECIAL_TOKENS)]
+            out.append(g)
+            k += 1
+    return out
+
+
 def enumerate_sites(root, token_cap=None):
     """every (kind, element index, attribute, token index) that applies; token_cap bounds the
     numeric tokens tried per element (first, second, middle, last) when given"""
@@ -132,14 +155,15 @@ def apply_faults(text, faults):
         elif k == 'dangling':
             # (a fault that no longer applies because an earlier fault of the same list removed
             # its site is a no-op)
+            name = f.get('payload') or 'nosuch-zz'
             if f.get('attr'):
                 v = el.get(f['attr'])
                 if v is not None:
-                    el.set(f['attr'], ('#' if v.startswith('#') else '') + 'nosuch-zz')
+                    el.set(f['attr'], ('#' if v.startswith('#') else '') + name)
             else:
                 toks = (el.text or '').split()
                 if f['tok'] < len(toks):
-                    toks[f['tok']] = 'nosuch-zz'
+                    toks[f['tok']] = name
                     el.text = ' '.join(toks)
         elif k == 'nohash':
             v = el.get(f['attr'])
@@ -148,11 +172,11 @@ def apply_faults(text, faults):
         elif k == 'nonnum':
             if f.get('attr'):
                 if el.get(f['attr']) is not None:
-                    el.set(f['attr'], 'x1y')
+                    el.set(f['attr'], f.get('payload') or 'x1y')
             else:
                 toks = (el.text or '').split()
                 if f['tok'] < len(toks):
-                    toks[f['tok']] = 'x1y'
+                    toks[f['tok']] = f.get('payload') or 'x1y'
                     el.text = ' '.join(toks)
         elif k == 'emptytext':
             el.text = ''
@@ -497,3 +521,62 @@ def site_item(text, fault):
     if bare(cur.tag) != bare(item.tag):
         return None
     return SITE_TAGS[bare(item.tag)], ET.tostring(cur, encoding='unicode')
+
+
+def wrongkind_sites(root):
+    """references re-pointed at a name that IS defined, but as something else: another role of the same
+    effect scope (a sampler source naming a sampler or a float parameter, a texture naming a surface or
+    a float parameter), the id of an object of a different library, or the value of a name / sid /
+    symbol attribute that is nobody's id.  Such a reference is as dangling as an undefined name."""
+    els = elements(root)
+    parents = parent_map(root)
+    ids = {}
+    for e in els:
+        if e.get('id'):
+            ids.setdefault(e.get('id'), bare(e.tag))
+    labels = sorted({e.get(a) for e in els for a in ('name', 'sid', 'symbol') if e.get(a)} - set(ids))
+    by_tag = {}
+    for i_, t_ in ids.items():
+        by_tag.setdefault(t_, []).append(i_)
+    target_tag = {'instance_geometry': 'geometry', 'instance_controller': 'controller', 'instance_light': 'light',
+                  'instance_camera': 'camera', 'instance_node': 'node', 'instance_material': 'material',
+                  'instance_effect': 'effect', 'instance_visual_scene': 'visual_scene', 'skin': 'geometry', 'morph': 'geometry'}
+    out = []
+    for i, e in enumerate(els):
+        t = bare(e.tag)
+        # effect scope: other roles of the same effect
+        fx = e
+        while fx is not None and bare(fx.tag) != 'effect':
+            fx = parents.get(fx)
+        if fx is not None:
+            roles = {'sampler': [], 'surface': [], 'value': []}
+            for np_ in fx.iter():
+                if bare(np_.tag) == 'newparam' and np_.get('sid'):
+                    kid = [bare(c.tag) for c in np_]
+                    roles['sampler' if 'sampler2D' in kid else 'surface' if 'surface' in kid else 'value'].append(np_.get('sid'))
+            if t == 'texture' and e.get('texture') is not None:
+                for name in roles['surface'] + roles['value']:
+                    out.append({'kind': 'crossref', 'elem': i, 'tag': t, 'attr': 'texture', 'value': name, 'wrongkind': True})
+            elif t == 'source' and bare(parents[e].tag) == 'sampler2D':
+                for name in roles['sampler'] + roles['value']:
+                    out.append({'kind': 'crossref', 'elem': i, 'tag': t, 'tok': 0, 'value': name, 'wrongkind': True})
+        # library references: the id of an object of another kind, and labels that are nobody's id
+        for a in ('url', 'target', 'source'):
+            v = e.get(a)
+            if v and v.startswith('#') and t in target_tag:
+                want = target_tag[t]
+                other = sorted(i_ for i_, t_ in ids.items() if t_ != want and t_ in target_tag.values())
+                for name in other[:2] + labels[:3]:
+                    out.append({'kind': 'crossref', 'elem': i, 'tag': t, 'attr': a, 'value': '#' + name, 'wrongkind': True})
+    return out
+
+
+def item_key_of(root, el):
+    """the library item (attr, index) whose subtree contains el, or ('scene', 0), or None"""
+    for attr, n, it in library_items(root):
+        if any(x is el for x in it.iter()):
+            return (attr, n)
+    for s_ in root:
+        if bare(s_.tag) == 'scene' and any(x is el for x in s_.iter()):
+            return ('scene', 0)
+    return None
